@@ -273,18 +273,24 @@ pub fn wellformed(rng: &mut Rng) -> Rendered {
     }
 }
 
-const SOUP: [&str; 62] = [
+const SOUP: [&str; 64] = [
     "(", ")", "[", "]", "{", "}", "#(", "'", "`", ",", ".", "..", "...", "#t", "#f", "#\\", "#\\a", "#\\space", "#\\x", "#x", "#e", "#",
     "\"", "\"abc\"", "\"\\", ";", "; c\n", "1", "-", "+5", "1/2", "a", "λ", "\\",
     // number-shaped and hash-shaped fragments: radix digits that start with a letter, fractions,
     // exponents, upper case, long booleans, other prefixes, characters by scalar value
     "a.8", "ff", "ff.4", "1e3", "1E3", "-F", "1A", ".AB", "+E", "e", "#i", "#b", "#o", "#d", "#X", "#E", "#true", "#false", "#tr", "#fa",
     "#\\x41", "#\\x", "#\\λ", "10", "-1", "/", "|", "#;",
+    // a byte order mark and a zero-width space: ordinary identifier characters for this reader
+    "\u{feff}", "\u{200b}",
 ];
 
 pub fn token_soup(rng: &mut Rng) -> String {
     let n = rng.usize(12);
     let mut s = String::new();
+    // texts saved by some editors begin with a byte order mark
+    if rng.chance(1, 12) {
+        s.push('\u{feff}');
+    }
     for _ in 0..n {
         s.push_str(*rng.pick(&SOUP));
         if rng.chance(1, 2) {
